@@ -134,6 +134,7 @@ static std::string obs(IPhreeqc *p, bool lines) {
 int main(int argc, char **argv) {
   if (argc < 2) { fprintf(stderr, "usage: wdrive script\n"); return 2; }
   init_dispatch();
+  M0["GetId"] = [](IPhreeqc *m) -> std::string { return jany(m->GetId()); };
   std::ifstream sf(argv[1]);
   std::string line;
   long lineno = 0;
@@ -141,7 +142,8 @@ int main(int argc, char **argv) {
     ++lineno;
     if (line.empty() || line[0] == '#') continue;
     std::vector<std::string> f = split(line, '\t');
-    for (size_t i = 0; i < f.size(); ++i) f[i] = unesc(f[i]);
+    std::vector<bool> isnull(f.size(), false);
+    for (size_t i = 0; i < f.size(); ++i) { isnull[i] = (f[i] == "\\NULL"); f[i] = unesc(f[i]); }
     const std::string &op = f[0];
     std::string out;
     try {
@@ -166,12 +168,12 @@ int main(int argc, char **argv) {
           if (!p) r = "\"notlive\"";
           else if (f.size() == 3 && M0.count(name)) r = M0[name](p);
           else if (f.size() == 4 && M1I.count(name)) r = M1I[name](p, atoi(f[3].c_str()));
-          else if (f.size() == 4 && M1S.count(name)) r = M1S[name](p, f[3].c_str());
+          else if (f.size() == 4 && M1S.count(name)) r = M1S[name](p, isnull[3] ? (const char *)0 : f[3].c_str());
           else found = false;
         } else if (op == "c") {
           if (f.size() == 3 && C0.count(name)) r = C0[name](id);
           else if (f.size() == 4 && C1I.count(name)) r = C1I[name](id, atoi(f[3].c_str()));
-          else if (f.size() == 4 && C1S.count(name)) r = C1S[name](id, f[3] == "\\NULL" ? (const char *)0 : f[3].c_str());
+          else if (f.size() == 4 && C1S.count(name)) r = C1S[name](id, isnull[3] ? (const char *)0 : f[3].c_str());
           else found = false;
         } else {
           if (f.size() == 3 && F0.count(name)) r = F0[name](id);
